@@ -1,2 +1,88 @@
-From SV Require Import TimingSrc.
-Theorem C15_placeholder : True. Proof. exact I. Qed.
+(* C15 - Split timing: chart timing is used all-or-nothing under one rule.  Statements and their
+   (short) proofs; the weight of this property is on the enumerated correspondence. *)
+From Coq Require Import List ZArith NArith Bool.
+From SV Require Import Sx Str Omap Beat Simfile TimingSrc Generated.Tables.
+Import ListNotations.
+Open Scope Z_scope.
+
+(* the one rule *)
+Theorem C15_source_iff : forall sk sf ck c,
+  timing_source sk sf ck c = TOk SrcChart <->
+  sk = KSSC /\ ck = CSSC /\ version_ok (get kVERSION sf) = TOk true /\
+  exists key, In key Tables.chart_timing_properties /\ truthy (get key c) = true.
+Proof.
+  intros sk sf ck c. unfold timing_source, chart_has_timing. split.
+  - destruct sk, ck; try discriminate. destruct (version_ok (get kVERSION sf)) as [[|]| | |] eqn:V; try discriminate.
+    destruct (existsb _ _) eqn:E; [|discriminate]. intros _. repeat split; try reflexivity.
+    apply existsb_exists in E. exact E.
+  - intros (-> & -> & V & key & Hin & Ht). rewrite V.
+    assert (E : existsb (fun key0 => truthy (get key0 c)) Tables.chart_timing_properties = true) by (apply existsb_exists; eauto).
+    rewrite E. reflexivity.
+Qed.
+Print Assumptions C15_source_iff.
+
+Theorem C15_the_eleven_timing_properties :
+  Tables.chart_timing_properties =
+  [kBPMS; kSTOPS; kDELAYS; [84;73;77;69;83;73;71;78;65;84;85;82;69;83]; [84;73;67;75;67;79;85;78;84;83]; [67;79;77;66;79;83];
+   kWARPS; [83;80;69;69;68;83]; [83;67;82;79;76;76;83]; [70;65;75;69;83]; [76;65;66;69;76;83]]%N.
+Proof. vm_compute. reflexivity. Qed.
+
+Theorem C15_split_timing_version : Tables.ssc_version_split_timing_x100 = 70.
+Proof. reflexivity. Qed.
+
+(* all-or-nothing: when the chart is the source, nothing of the simfile (other than what made the
+   chart the source) reaches the result; and the other way round *)
+Theorem C15_chart_source_ignores_simfile : forall sf sf' c ign,
+  timing_source KSSC sf CSSC c = TOk SrcChart -> timing_source KSSC sf' CSSC c = TOk SrcChart ->
+  timing_data KSSC sf CSSC c = timing_data KSSC sf' CSSC c /\
+  displaybpm KSSC sf CSSC c ign = displaybpm KSSC sf' CSSC c ign.
+Proof. intros sf sf' c ign H H'. unfold timing_data, displaybpm. rewrite H, H'. split; reflexivity. Qed.
+Print Assumptions C15_chart_source_ignores_simfile.
+
+Theorem C15_simfile_source_ignores_chart : forall sk sf ck c ck' c' ign,
+  timing_source sk sf ck c = TOk SrcSimfile -> timing_source sk sf ck' c' = TOk SrcSimfile ->
+  timing_data sk sf ck c = timing_data sk sf ck' c' /\
+  displaybpm sk sf ck c ign = displaybpm sk sf ck' c' ign.
+Proof. intros sk sf ck c ck' c' ign H H'. unfold timing_data, displaybpm. rewrite H, H'. split; reflexivity. Qed.
+Print Assumptions C15_simfile_source_ignores_chart.
+
+(* every field comes from the one source *)
+Theorem C15_fields_from_source : forall sk sf ck c s,
+  timing_source sk sf ck c = TOk s ->
+  timing_data sk sf ck c = timing_data_of (fst (src_props sk sf c s)) (snd (src_props sk sf c s)) /\
+  forall ign, displaybpm sk sf ck c ign = displaybpm_of (fst (src_props sk sf c s)) ign.
+Proof.
+  intros sk sf ck c s H. unfold timing_data, displaybpm. rewrite H. destruct (src_props sk sf c s). split; reflexivity.
+Qed.
+Print Assumptions C15_fields_from_source.
+
+(* the displayed-BPM rule *)
+Theorem C15_displaybpm_rule : forall p : props,
+  (get kDISPLAYBPM p = None \/ get kDISPLAYBPM p = Some None -> forall ign, displaybpm_of p ign = from_bpms p) /\
+  (forall v, get kDISPLAYBPM p = Some (Some v) -> displaybpm_of p true = from_bpms p) /\
+  (get kDISPLAYBPM p = Some (Some [42%N]) -> displaybpm_of p false = TOk DRandom).
+Proof.
+  intro p. split; [|split].
+  - intros [H|H] ign; unfold displaybpm_of; destruct (get kDISPLAYBPM p) as [[v|]|]; try discriminate; reflexivity.
+  - intros v H. unfold displaybpm_of. destruct (get kDISPLAYBPM p) as [[w|]|]; reflexivity.
+  - intro H. unfold displaybpm_of. destruct (get kDISPLAYBPM p) as [[w|]|]; try discriminate. inversion H; subst. reflexivity.
+Qed.
+Print Assumptions C15_displaybpm_rule.
+
+(* the version threshold on the seven listed versions, the offset default, the displayed BPM classes *)
+Definition dv (s : list N) : option val := Some (Some s).
+Example C15_examples :
+  version_ok None = TOk false /\ version_ok (dv []) = TOk false /\ version_ok (dv [48;46;54;57]%N) = TOk false /\
+  version_ok (dv [48;46;55]%N) = TOk true /\ version_ok (dv [48;46;55;48]%N) = TOk true /\
+  version_ok (dv [48;46;56;51]%N) = TOk true /\ version_ok (dv [49;46;48]%N) = TOk true /\
+  (forall t, timing_data_of [(kBPMS, Some [48;61;54;48]%N)] false = TOk t -> ts_offset t = {| dneg := false; dcoef := 0; dplaces := 0 |}) /\
+  displaybpm_of [(kDISPLAYBPM, Some [49;50;48;58;50;52;48]%N)] false =
+    TOk (DRange {| dneg := false; dcoef := 120; dplaces := 0 |} {| dneg := false; dcoef := 240; dplaces := 0 |}) /\
+  displaybpm_of [(kDISPLAYBPM, Some []); (kBPMS, Some [48;61;54;48;44;52;61;57;48]%N)] false =
+    TOk (DRange {| dneg := false; dcoef := 60; dplaces := 0 |} {| dneg := false; dcoef := 90; dplaces := 0 |}).
+Proof.
+  split; [vm_compute; reflexivity|]. split; [vm_compute; reflexivity|]. split; [vm_compute; reflexivity|].
+  split; [vm_compute; reflexivity|]. split; [vm_compute; reflexivity|]. split; [vm_compute; reflexivity|].
+  split; [vm_compute; reflexivity|]. split; [|split; vm_compute; reflexivity].
+  intros t H. vm_compute in H. inversion H. reflexivity.
+Qed.
